@@ -217,12 +217,17 @@ func (x *c15Inst) close() {
 
 // send issues the request through the RPC handler (metadata.editEntitynew).
 func (x *c15Inst) send(r c15Req) (tlmetadata.Event, error) {
+	return x.sendCtx(context.Background(), r)
+}
+
+// sendCtx: the same under a caller-supplied request context (part 4 lets it expire).
+func (x *c15Inst) sendCtx(ctx context.Context, r c15Req) (tlmetadata.Event, error) {
 	args := tlmetadata.EditEntitynew{Event: tlmetadata.Event{Id: r.id, Name: r.name, EventType: r.typ, Version: r.version, Data: r.data, Unused: r.del}}
 	args.Event.SetMetadata("who")
 	args.SetCreate(r.create)
 	args.SetDelete(r.del != 0)
 	hctx := &rpc.HandlerContext{Request: args.WriteTL1(nil)}
-	if _, err := x.h.RawEditEntity(context.Background(), hctx); err != nil {
+	if _, err := x.h.RawEditEntity(ctx, hctx); err != nil {
 		return tlmetadata.Event{}, err
 	}
 	var ev tlmetadata.Event
@@ -261,14 +266,21 @@ func (x *c15Inst) journalPaged(from, page int64) ([]tlmetadata.Event, string) {
 
 // step sends one request and checks the answer against the model. Returns a violation or "".
 func c15Step(x *c15Inst, m *c15Model, r c15Req) (sig, desc string, accepted bool) {
+	ev, err := x.send(r)
+	return c15Judge(m, r, ev, err, false)
+}
+
+// c15Judge checks one answer against the model and applies an accepted request to it. excused: the
+// environment gave the server a reason to refuse (part 4: the request context expired, the binlog
+// refused the append, the engine is a replica), so a refusal is never "valid-request-refused".
+func c15Judge(m *c15Model, r c15Req, ev tlmetadata.Event, err error, excused bool) (sig, desc string, accepted bool) {
 	exp, clause, nsID := m.expect(r)
 	before := m.maxVersion
-	ev, err := x.send(r)
 	if err != nil && strings.HasPrefix(err.Error(), "HARNESS:") {
 		return "C15:harness", err.Error(), false
 	}
 	if err != nil {
-		if exp == c15MustSucceed {
+		if exp == c15MustSucceed && !excused {
 			return "C15:valid-request-refused", fmt.Sprintf("%v refused (%v) although it names the current version, a free name and an existing namespace", r, err), false
 		}
 		return "", "", false
@@ -690,7 +702,7 @@ func TestVerifC15(t *testing.T) {
 		depth = min(depth, v)
 		rep.Cap(fmt.Sprintf("VERIF_C15_MAXDEPTH=%d", v))
 	}
-	rep.Rule = "part 1: every history up to the depth bound over {create metric a / b / ns:a, group a / ns:a, namespace ns / b, dashboard a; edit of the 1st and 2nd created entity naming its current or a stale version and keeping the name / a free name c / a possibly taken name a / a name in namespace ns:c; delete with current or stale version}, all requests through RawEditEntity, state-hashing BFS over the journal; part 2: at every distinct state reached, for every entity, {edit, delete, rename} built from the same observed version in all 6 orders on fresh replays and once from 3 concurrent goroutines; part 3: every history up to its depth bound of {create, edit 1st, edit 2nd entity} x {small, ~600 KiB data} (two large entities exceed the journal's 1 MiB page byte budget), journal followed by cursor from every start version with page limits 1, 2, 100. Non-trivial: the last request conflicts with the state and has to be refused (stale version, taken name, missing namespace, namespace rename)"
+	rep.Rule = "part 1: every history up to the depth bound over {create metric a / b / ns:a, group a / ns:a, namespace ns / b, dashboard a; edit of the 1st and 2nd created entity naming its current or a stale version and keeping the name / a free name c / a possibly taken name a / a name in namespace ns:c; delete with current or stale version}, all requests through RawEditEntity, state-hashing BFS over the journal; part 2: at every distinct state reached, for every entity, {edit, delete, rename} built from the same observed version in all 6 orders on fresh replays and once from 3 concurrent goroutines; part 3: every history up to its depth bound of {create, edit 1st, edit 2nd entity} x {small, ~600 KiB data} (two large entities exceed the journal's 1 MiB page byte budget), journal followed by cursor from every start version with page limits 1, 2, 100; part 4: on every state of part 1 within the fault prefix bound, every request shape of part 1 once more with an environment fault (request context expiring after its N-th check for every N below the number of checks of the unfaulted request, binlog refusing the append, engine in replica role), a refused request must be invisible to the journal, the entity history, the retried and competing requests built from the state observed before it, and to a database rebuilt from the binlog. Non-trivial: the last request conflicts with the state and has to be refused (stale version, taken name, missing namespace, namespace rename); in part 4: a request the unfaulted run accepts is refused only because of the fault"
 	rep.Bounds["history_depth"] = depth
 	rep.Bounds["alphabet"] = ex.names(vmetaSeq(len(ops)))
 	rep.Bounds["paging_depth"] = mc.Pick(4, 5)
@@ -765,6 +777,9 @@ func TestVerifC15(t *testing.T) {
 	rep.AddCounts(raceExecs, raceExecs*3, 0, raceExecs)
 	rep.Parts["races"] = map[string]any{"states_raced": raced, "states_total": len(keys), "executions": raceExecs}
 	t.Logf("C15 races: states=%d/%d executions=%d wall=%.1fs", raced, len(keys), raceExecs, time.Since(t1).Seconds())
+
+	// part 4: requests refused by the environment (verif_c15_faults_test.go)
+	c15RunFaultPart(t, rep, ex)
 	if err := rep.Write(); err != nil {
 		t.Fatal(err)
 	}
